@@ -296,10 +296,32 @@ def _binop(x, y, op):
         if z3.is_int(a):  # int / int in Python is true division
             a, b = z3.ToReal(a), z3.ToReal(b)
         ctx = _CTX
+        if ctx is not None and not yn and ctx.mode == "sym" and ctx.scratch.get("recip"):
+            r = _recip_of(b, ctx.scratch["recip"])
+            if r is not None:
+                return _binop(x, Sym(r), "*")
         if ctx is not None and not yn:
             ctx.note_division(b)
         return _mk(a / b)
     raise PathAbort(f"unsupported op {op}")
+
+
+def _recip_of(t, table):
+    """Reciprocal of a term that is a product of variables with declared reciprocals (else None)."""
+    tid = t.get_id()
+    if tid in table:
+        return table[tid]
+    c = _const_value(t)
+    if c is not None and c != 0:
+        return z3.RealVal(str(1 / c))
+    if z3.is_mul(t):
+        rs = [_recip_of(ch, table) for ch in t.children()]
+        if all(r is not None for r in rs):
+            out = rs[0]
+            for r in rs[1:]:
+                out = out * r
+            return out
+    return None
 
 
 def _pow(x, k):
@@ -573,6 +595,56 @@ class Ctx:
             out[idx] = self.real(name + "_" + "_".join(map(str, idx)), **kw)
         return out if self.mode == "conc" else out.view(SymArray)
 
+    def normalizer(self):
+        from .polynorm import Normalizer
+        key = (len(self.scratch.get("recip", {})), len(self._sqrt))
+        n = self.scratch.get("_normalizer")
+        if n is None or n[0] != key:
+            n = (key, Normalizer(self.scratch.get("recip"), self._sqrt))
+            self.scratch["_normalizer"] = n
+        return n[1]
+
+    def canon_key(self, t):
+        from .polynorm import TooBig
+        try:
+            return self.normalizer().key(t)
+        except (TooBig, RecursionError):
+            return ("id", t.get_id())
+
+    def near(self, a, b, tol):
+        """|a - b| <= tol: by canonical form when the difference is a constant, else by the solver."""
+        if self.mode == "conc":
+            return bool(np.all(np.abs(np.asarray(a, float) - np.asarray(b, float)) <= tol))
+        from .polynorm import difference_constant
+        fa, fb = _flat(a), _flat(b)
+        if len(fa) != len(fb):
+            return False
+        parts = []
+        for x, y in zip(fa, fb):
+            if not isinstance(x, Sym) and not isinstance(y, Sym):
+                if abs(float(x) - float(y)) > tol:
+                    return False
+                continue
+            p, q = _coerce(lift(x), lift(y))
+            c = difference_constant(self.normalizer(), p, q)
+            if c is not None:
+                if abs(c) > tol:
+                    return False
+                continue
+            d = p - q
+            parts.append(z3.And(d <= _realval(tol), -d <= _realval(tol)))
+        return SymBool(z3.And(*parts)) if parts else True
+
+    def declare_reciprocal(self, x, name=None):
+        """Introduce w with w*x = 1 (x != 0); later divisions by products of x become products of w."""
+        if self.mode == "conc":
+            return 1.0 / x
+        w = z3.Real(name or f"_inv{len(self.scratch.get('recip', {}))}")
+        self._add(w * x.t == 1)
+        self.scratch.setdefault("recip", {})[x.t.get_id()] = w
+        self.scratch.setdefault("_keepalive", []).append(x.t)
+        return Sym(w)
+
     def fresh(self, base="t", sort="real"):
         self.nfresh += 1
         name = f"_{base}{self.nfresh}"
@@ -623,6 +695,11 @@ class Ctx:
             return True
         if z3.is_false(cond):
             return False
+        # a condition decided earlier on this path is not asked (or forked on) again
+        cid = cond.get_id()
+        known = self.scratch.setdefault("_decided", {})
+        if cid in known:
+            return known[cid]
         i = len(self.taken)
         if i < len(self.prefix):
             kind, d = self.prefix[i]
@@ -652,6 +729,10 @@ class Ctx:
                 d = can_t
         self.taken.append(("b", d))
         self._add(cond if d else z3.Not(cond))
+        known[cid] = d
+        ncond = z3.simplify(z3.Not(cond))
+        known[ncond.get_id()] = not d
+        self.scratch.setdefault("_keepalive", []).extend([cond, ncond])   # ids of collected terms are re-used
         return d
 
     def fork2(self, can_true_fn, can_false_fn):
@@ -707,7 +788,11 @@ class Ctx:
 
     # -- special functions -------------------------------------------------------------
     def sqrt_of(self, x: Sym):
-        key = x.t.get_id()
+        key = self.canon_key(x.t)
+        if key == ():
+            return 0.0
+        if len(key) == 1 and key[0][0] == () and key[0][1][0] >= 0:
+            return math.sqrt(key[0][1][0] / key[0][1][1])
         if key in self._sqrt:
             return self._sqrt[key][1]
         y = self.fresh("sqrt")
@@ -718,7 +803,11 @@ class Ctx:
         return s
 
     def exp_of(self, x: Sym):
-        key = x.t.get_id()
+        key = self.canon_key(x.t)
+        if key == ():
+            return 1.0            # the argument is identically zero
+        if len(key) == 1 and key[0][0] == ():
+            return math.exp(key[0][1][0] / key[0][1][1])
         if key in self._exp:
             return self._exp[key][1]
         e = self._expf(_to_real(x.t))
@@ -906,6 +995,19 @@ def _flat(a):
 
 def _poly_zero(t):
     """True if the term normalises to 0 as a polynomial (sound algebraic identity check)."""
+    ctx = _CTX
+    if ctx is not None and ctx.mode == "sym":
+        try:
+            from .polynorm import TooBig
+            try:
+                p = ctx.normalizer().canon(t)
+                if not p:
+                    return True
+                return False if len(p) < 2000 else False
+            except TooBig:
+                pass
+        except RecursionError:
+            pass
     try:
         r = z3.simplify(t, som=True, hoist_mul=False)
     except z3.Z3Exception:
